@@ -3141,6 +3141,24 @@ theorem primAssign_refines (level : Addr) (d : DescArg) (v : Val) :
     rw [hs1] at this
     rw [this]
 
+/-! ## observers of prototype links -/
+
+/-- isPrototypeOf (§15.2.4.6: a non-object argument gives false before the receiver is looked at),
+    getPrototypeOf (§15.2.3.2) and instanceof (§15.3.5.3) agree with ES5 for every receiver and argument,
+    except that an undefined receiver handed over by Function.prototype.call arrives as the global object -/
+theorem protoLink_refines (r : PRecv) (a : PArg) (h : devCallUndefined r a = false) :
+    isPrototypeOf r a = Spec.isPrototypeOf r a ∧ getPrototypeOf a = Spec.getPrototypeOf a ∧
+    instanceOf r a = Spec.instanceOf r a := by
+  cases r with
+  | proto p => exact ⟨rfl, rfl, rfl⟩
+  | null => exact ⟨rfl, rfl, rfl⟩
+  | undefined => cases a <;> first | exact ⟨rfl, rfl, rfl⟩ | (exact absurd h (by decide))
+
+/-- `Object.prototype.isPrototypeOf.call(undefined, {})` is false (ES5: TypeError) – region `call_undefined_this` -/
+example : isPrototypeOf .undefined .plain ≠ Spec.isPrototypeOf .undefined .plain := by decide
+/-- a primitive argument gives false even with a null receiver, and Number.prototype is not a prototype of 5 (seed M05) -/
+example : isPrototypeOf .null .number = .f ∧ isPrototypeOf (.proto .numberP) .number = .f := by decide
+
 /-! ## Non-vacuity of the hypotheses -/
 
 /-- a heap with a data and an accessor property … -/
